@@ -48,7 +48,7 @@ class _IntMeta(type):
         if hasattr(x, "sym_int"):
             return x.sym_int()
         if isinstance(x, core.SFloat):
-            x.eng._raise(core.Unsupported("int() of a symbolic float"))
+            return x.__trunc__()
         return builtins.int(x, *a)
 
 
